@@ -7,6 +7,7 @@ from sim import core, gen, harness, install, world
 from sim.core import substream
 
 PROP = 'C20'
+TECHNIQUE = 'deterministic simulation: seeded interleavings of 1-4 streams on one limiter on a virtual clock; windowed rate bounds from logged clock reads; rate-limited real commands'
 LEVEL = 'exploration'
 RULE = ('one case = 1..4 simulated threads, each pumping a seeded sequence of read (or write) requests of sizes d <= L/4 through one real '
         'RateLimitedIO(L).wrap(stream) (optionally inside the TQDM wrapper chain the commands use), underlying streams with seeded latency '
